@@ -54,7 +54,8 @@ static int process_data(xfrm_stream_t *stream, const void *in, sqfs_u32 in_size,
 	if (flush_mode < 0 || flush_mode >= XFRM_STREAM_FLUSH_COUNT)
 		flush_mode = XFRM_STREAM_FLUSH_NONE;
 
-	while (in_size > 0 && out_size > 0) {
+	while (out_size > 0 &&
+	       (in_size > 0 || flush_mode == XFRM_STREAM_FLUSH_FULL)) {
 		bzip2->strm.next_in = (char *)in;
 		bzip2->strm.avail_in = in_size;
 
@@ -73,6 +74,14 @@ static int process_data(xfrm_stream_t *stream, const void *in, sqfs_u32 in_size,
 
 		if (ret < 0)
 			return XFRM_STREAM_ERROR;
+
+		if (ret != BZ_STREAM_END &&
+		    bzip2->strm.avail_in == in_size &&
+		    bzip2->strm.avail_out == out_size) {
+			/* no progress: nothing left to flush or, when
+			   unpacking, more input is needed first */
+			break;
+		}
 
 		diff = (in_size - bzip2->strm.avail_in);
 		in = (const char *)in + diff;
